@@ -239,7 +239,7 @@ def plan(tier, seed):
         {'name': 'written-file-names', 'cases': iter([{'stem': n} for n in ('calendar', 'datetime', 'decimal', 're', 'math', 'dateutil',
                                                                               'typing', 'excel2pycl', 'translation', 'calendar')]),
          'runner': 'run_file_names', 'chunk': 2},
-        {'name': 'hand-written-subclass', 'cases': iter([{'wb': 'corpus'}, {'wb': 'ops'}, {'wb': 'criteria'}]), 'runner': 'run_subclass',
+        {'name': 'hand-written-subclass', 'cases': iter([{'wb': 'corpus'}, {'wb': 'ops'}, {'wb': 'criteria'}, {'wb': 'optional'}]), 'runner': 'run_subclass',
          'chunk': 1},
     ]
 
@@ -347,6 +347,14 @@ WORKBOOKS = {
     'ops': [('S', {'A1': 2, 'B1': 'x', 'C1': '=A1*3&B1', 'D1': '=IF(A1>1,ROUND(A1/3,2),"n")', 'E1': '=-A1%+F1', 'A2': '=SUM(A1:F1)',
                    'B2': '=LEFT(B1&"yz",2)&MID("abc",2,5)', 'C2': '=IFERROR(1/F1,"e")', 'D2': '=IFS(A1>5,1,A1>1,2)', 'E2': '=A1=F1'}),
             ('T', {'A1': '=S!A1+1', 'B1': DT(2020, 1, 31), 'C1': '=EDATE(B1,1)', 'D1': '=DATEDIF(B1,C1,"D")', 'E1': '=COLUMN()'})],
+    # every optional argument left out (and left empty): what the translator supplies for it must exist in both runtimes
+    'optional': [('S', {'A1': -7.25, 'A2': 'apple', 'A3': 3, 'B1': 10, 'B2': 20, 'B3': 30, 'C1': DT(2024, 2, 5), 'C2': DT(2024, 2, 16),
+                        'E1': '=ROUNDDOWN(A1)', 'E2': '=ROUNDUP(A1)', 'E3': '=ROUNDDOWN(A1,)', 'E4': '=ROUNDUP(A1,)', 'E5': '=LEFT(A2)',
+                        'E6': '=RIGHT(A2)', 'E7': '=MATCH(25,B1:B3)', 'E8': '=XMATCH(20,B1:B3)', 'E9': '=VLOOKUP(25,B1:B3,1)',
+                        'E10': '=INDEX(B1:B3,2)', 'E11': '=IF(A3>5,1)', 'E12': '=SEARCH("p",A2)', 'E13': '=NETWORKDAYS(C1,C2)',
+                        'E14': '=ADDRESS(2,3)', 'E15': '=YEAR(TODAY())>2000', 'E16': '=COLUMN()', 'E17': '=SUMIF(B1:B3,">15")',
+                        'E18': '=IFERROR(ROUNDDOWN(A1*2),-1)', 'E19': '=IFERROR(YEAR(TODAY()),0)>0', 'E20': '=CONCATENATE(A3)',
+                        'E21': '=DATEDIF(C1,C2,"D")', 'E22': '=COUNT(A1:B3)', 'E23': '=IFS(A3>5,1,TRUE,2)'})],
     'criteria': [('S', {'A1': 1, 'A2': 5, 'A3': 'apple', 'A4': 'Apple', 'B1': 1, 'B2': 2, 'B3': 4, 'B4': 8, 'D1': 5,
                         'E1': '=SUMIF(A1:A4,">1",B1:B4)', 'E2': '=SUMIFS(B1:B4,A1:A4,"a*")', 'E3': '=COUNTIFS(A1:A4,"<>"&D1)',
                         'E4': '=AVERAGEIFS(B1:B4,A1:A4,"apple")', 'E5': '=COUNTIFS(A1:A5,D1)', 'E6': '=SUMIF(A1:A4,"?pple")',
